@@ -17,6 +17,9 @@ def build(tier, rng, work):
     graphs += PP.lazy_graphs("tut13", [rng.randrange(1 << 30) for _ in range(3 if tier == "quick" else 12)], work)
     if tier != "quick":
         graphs += PP.lazy_graphs("gui3", [rng.randrange(1 << 30) for _ in range(8)], work)
+    # generated suites: random setup DAGs and product tests on the shipped base, eager and after lazy traversals
+    graphs += PP.gen_graphs(rng, 6 if tier == "quick" else 64, work)
+    graphs += PP.gen_lazy_graphs(rng, 1 if tier == "quick" else 8, 3 if tier == "quick" else 6, work)
     return graphs
 
 
@@ -24,4 +27,5 @@ def run(tier, seed):
     return PP.generic(PID, tier, seed, {"C06"}, build,
                       "recorded real parses replayed event by event; whole-graph invariants of GraphParse.WellFormed evaluated by TLC per graph",
                       ["selections and worker sets of the shipped sample suite (tp_folder); vm variants restricted to CentOS/Win10/Ubuntu",
-                       "generated suites with random setup DAGs are not built in this revision"])
+                       "generated suites: random further setup tests (image and running-vm states) and product tests over vm1..vm3 (incl. multi-producer "
+                       "dependencies) on top of the shipped object-creation/customize/connect base"])
